@@ -31,7 +31,7 @@ class State:
         if hasattr(s, 'errno_obj'): n.errno_obj = s.errno_obj
         n.objs = {k: v for k, v in s.objs.items()}   # copy-on-write at object level
         n.cow = set(n.objs.keys())
-        n.relaxed = getattr(s, 'relaxed', False); n.mfnames = getattr(s, 'mfnames', {}); n.exc_vt = getattr(s, 'exc_vt', None); n.exc_msg = getattr(s, 'exc_msg', None); n.iosreg = getattr(s, 'iosreg', {}); n.fake_ctype = getattr(s, 'fake_ctype', None); n.pc = list(s.pc); n.nextobj = s.nextobj; n.inputs = list(s.inputs); n.steps = s.steps; n.exc = s.exc
+        n.relaxed = getattr(s, 'relaxed', False); n.mfnames = getattr(s, 'mfnames', {}); n.exc_vt = getattr(s, 'exc_vt', None); n.exc_msg = getattr(s, 'exc_msg', None); n.iosreg = getattr(s, 'iosreg', {}); n.fake_ctype = getattr(s, 'fake_ctype', None); n.tm_obj = getattr(s, 'tm_obj', None); n.pc = list(s.pc); n.nextobj = s.nextobj; n.inputs = list(s.inputs); n.steps = s.steps; n.exc = s.exc
         for f in s.frames:
             g = Frame(f.fn); g.lab = f.lab; g.idx = f.idx; g.prev = f.prev; g.loc = dict(f.loc); g.ret_to = f.ret_to; g.allocas = list(f.allocas); g.loopcnt = dict(f.loopcnt)
             n.frames.append(g)
